@@ -666,6 +666,12 @@ def classify(tool, argv, o, fs, mutated, stdio_encoding=None):
                                    "standard output in %s" % stdio_encoding)
         return "formula", None
     # ---- non-zero exit status ------------------------------------------------
+    if (frag_out or frag_file) and \
+            "the request is too large to be served" in o.stderr:
+        # the machine gave out while the formula was being written: where
+        # that happens depends on the state of the allocator, not on the
+        # command line - size, not a verdict
+        return "error", ("note:ran out of memory while writing", "")
     if frag_out or frag_file:
         return "error", ("partial-formula-with-error",
                          "exit status %d but formula text was written: %r" %
@@ -735,6 +741,9 @@ def _one(case, ctx, faults):
                if m not in ("number", "second_cmd", "dangling_T")]
     klass, prob = classify(tool, argv, o, fs, bool(unclear),
                            case.get("locale"))
+    if prob and prob[0].startswith("note:"):
+        ctx.note(prob[0][5:] + " (size, not a verdict)")
+        prob = None
     ctx.log(tool, argv, [f[:2] for f in faults], o.status, klass,
             prob[0] if prob else None, len(o.stdout), len(o.stderr))
     ctx.probe("outcome:%s" % klass)
